@@ -4,7 +4,8 @@ import os, re, sys
 ROOT = os.path.dirname(os.path.dirname(os.path.abspath(__file__)))
 sys.path.insert(0, os.path.join(ROOT, "lib"))
 import props
-print("| model | decides | harness binary (what it binds) | E1 configurations (+ vacuity guards) | monitors |\n|---|---|---|---|---|")
+out = []
+out.append("| model | decides | harness binary (what it binds) | E1 configurations (+ vacuity guards) | monitors |\n|---|---|---|---|---|")
 for name in sorted(props.MODELS):
     M = props.MODELS[name]
     serves = sorted(p for p, P in props.PROPS.items() if name in P["models"] or (not P["claimed"] and False))
@@ -16,5 +17,13 @@ for name in sorted(props.MODELS):
     src = open(os.path.join(ROOT, "harness", "src", "bin", M["bin"] + ".rs")).read()
     ex = sorted(set(re.findall(r'#\[path = "/repo/examples/([^"]+)/src/contract.rs"\]', src)))
     binds = ("examples: " + ", ".join(ex)) if ex else "thin contracts over the library"
-    print("| %s | %s | `%s` (%s) | %s%s | %d: %s |" % (name, ", ".join(serves), M["bin"], binds, ", ".join(ok) or "(driver only)",
+    out.append("| %s | %s | `%s` (%s) | %s%s | %d: %s |" % (name, ", ".join(serves), M["bin"], binds, ", ".join(ok) or "(driver only)",
           (" (+ " + ", ".join(bad) + ")") if bad else "", len(mons), ", ".join(mons[:40])))
+txt = "\n".join(out) + "\n"
+dp = os.path.join(ROOT, "DESIGN.md")
+ds = open(dp).read()
+a, b = "<!-- MODELTABLE -->\n", "<!-- /MODELTABLE -->"
+if a in ds and b in ds:
+    ds = ds[:ds.index(a) + len(a)] + txt + ds[ds.index(b):]
+    open(dp, "w").write(ds)
+print(txt)
